@@ -164,15 +164,26 @@ bool Exec<Cfg>::ser_load(Op const& op) {
 		handled = with_dim(op.da, [&](auto Dc) {
 			constexpr int D = decltype(Dc)::value;
 			Arr<D>&       a = pool<D>().at(op.a);
+			if constexpr(!Cfg::static_arrays) {
+				if(op.var == 1) reindex_all<D>(a, 1);  // the loading array has the index base 1 in every dimension (restored below)
+			}
 			struct Restore {  // a file saved under index base 1 loads an array with base 1: the harness works zero-based
 				Arr<D>& a;
 				bool    on;
 				~Restore() {
 					if constexpr(!Cfg::static_arrays) { if(on) reindex_all<D>(a, 0); }
 				}
-			} restore{a, f.base != 0};
-			OpScope s;
-			load_object(bytes, f.arch, chunk_r_, a);
+			} restore{a, f.base != 0 || op.var == 1};
+			{
+				OpScope s;
+				load_object(bytes, f.arch, chunk_r_, a);
+			}
+			// "equal to the original in extents": the index base of every dimension is part of the saved extents
+			if(a.num_elements() != 0) {
+				bool bases_ok = true;
+				for(int k = 0; k < D; ++k) bases_ok = bases_ok && static_cast<int>(a.extension(k).first()) == f.base;
+				if(!bases_ok) fail("I4-extents", "the loaded array does not have the index base (" + std::to_string(f.base) + ") of the saved one");
+			}
 		});
 	} else {
 		AV av;
